@@ -232,6 +232,11 @@ def liveness(case, obs, log, plan):
     for c, o in zip(script, ob):
         if c[0] == "rows":
             rows[c[1]] = o
+    if plan.get("max_drops") is not None:
+        # family retx_budget: judged only when at most retx_max copies were really dropped
+        nd = sum(1 for c, o in zip(script, ob) if c[0] == "drop" and o.get("r") == "ok")
+        if nd > plan["max_drops"]:
+            return []
     # Only a run that has come to rest can be judged: the last three egress passes emitted nothing.
     tail = [o for c, o in zip(script, ob) if c[0] == "egress"][-3:]
     if len(tail) < 3 or any(o["pk"] for o in tail):
@@ -265,7 +270,7 @@ def liveness(case, obs, log, plan):
                     fails.append("sender window %d; %s" % (tx["snd_wnd"], lost[0]))
                 else:
                     fails.append("sender is left with window %d although no window update was dropped or overtaken" % tx["snd_wnd"])
-        out.append(("fair run (drops=%d < retx_max=%d): %s" % (plan["drops"], F.full_cfg(case["cfg"])["retx_max"], "; ".join(fails)), klass))
+        out.append(("fair run (drops=%d <%s retx_max=%d): %s" % (plan["drops"], "=" if plan.get("max_drops") is not None else "", F.full_cfg(case["cfg"])["retx_max"], "; ".join(fails)), klass))
     return out
 
 
@@ -329,7 +334,7 @@ class Spec(PropSpec):
         n = 360 if ctx.tier == "quick" else 3000
         if ctx.escalate:
             n *= 2
-        cases = list(F.exhaustive_single_faults()) + F.bidi_cases() + F.wrap_cases() + F.fin_ack_lost_cases() + F.blocked_writer_cases()
+        cases = list(F.exhaustive_single_faults()) + F.bidi_cases() + F.wrap_cases() + F.fin_ack_lost_cases() + F.blocked_writer_cases() + F.retx_budget_cases()
         if ctx.tier != "quick":
             cases += F.exhaustive_single_faults(retx_threshold=1, retx_max=3)
         for i in range(n):
